@@ -281,6 +281,50 @@ func runC07(env *lib.Env, rep *lib.Report) {
 	for k, v := range r.fails {
 		lib.Say("C07 failure class %s: %d", k, v)
 	}
+	// grouping by a varchar column holding NULL, the empty string and strings that print like NULL:
+	// every multiset of <= 3 rows over s in {NULL, '', 'a', '<nil>', '0:|'} in every row order
+	sVals := []any{nil, "", "a", "<nil>", "0:|"}
+	var sSets [][][]any
+	var recS func(start int, cur [][]any)
+	recS = func(start int, cur [][]any) {
+		if len(cur) > 0 {
+			sSets = append(sSets, append([][]any{}, cur...))
+		}
+		if len(cur) == 3 {
+			return
+		}
+		for i := start; i < len(sVals); i++ {
+			recS(i, append(cur, []any{sVals[i], int64(len(cur) + 1)}))
+		}
+	}
+	recS(0, nil)
+	sQueries := []*qQuery{
+		{items: []qItem{{kind: "col", col: qRef{"", "s"}}, {kind: "count*"}}, from: []qJoin{{table: "ts"}}, groupBy: []qRef{{"", "s"}}, limit: -1, offset: -1},
+		{items: []qItem{{kind: "count", col: qRef{"", "v"}}, {kind: "col", col: qRef{"", "s"}, alias: "x"}}, from: []qJoin{{table: "ts"}}, groupBy: []qRef{{"", "x"}}, limit: -1, offset: -1},
+		{items: []qItem{{kind: "col", col: qRef{"", "s"}}, {kind: "col", col: qRef{"", "v"}}, {kind: "count*"}}, from: []qJoin{{table: "ts"}}, groupBy: []qRef{{"", "s"}, {"", "v"}}, limit: -1, offset: -1},
+		{items: []qItem{{kind: "col", col: qRef{"", "s"}}}, from: []qJoin{{table: "ts"}}, groupBy: []qRef{{"", "s"}}, limit: -1, offset: -1},
+	}
+	for _, ms := range sSets {
+		n++
+		if n%env.NShards != env.Shard {
+			continue
+		}
+		permutations(ms, func(rows [][]any) {
+			worlds++
+			body := func(c *lib.Ctx) {
+				qw := newQWorld(c, []*qTable{{name: "ts", cols: []mCol{{"s", "varchar"}, {"v", "int"}}, rows: rows}})
+				defer qw.w.destroy()
+				for _, q := range sQueries {
+					r.check(qw, q, "group-by/varchar-null-empty", "")
+				}
+			}
+			x := lib.RunOnce(body, nil)
+			if x.Fail != nil {
+				rep.AddFailure(x.Fail)
+			}
+		})
+	}
+	rep.Bounds["varchar grouping family"] = "every multiset of <= 3 rows over s in {NULL, '', 'a', '<nil>', '0:|'} in every row order, 4 GROUP BY queries"
 	rep.Bounds["databases built (this shard)"] = worlds
 	rep.Bounds["queries executed (this shard)"] = r.nQuery
 }
